@@ -1115,20 +1115,22 @@ Section Template.
     default_to_self = false -> url_encode = false ->
     text_eqb s t_empty_literal = false ->
     parse1 s = Some e -> mt ctxmap raw_dates e = Some t ->
+    expression_size_ok s = true ->
     too_long ctxmap raw_dates (max_migrated_length s) e = false ->
     exists body, mseg (SExpr s) following = (64 :: body, false) /\
       (body = print3 t \/ body = 40 :: print3 t ++ [41]) /\
       parse3 (print3 t) = Some t.
   Proof.
-    intros s e t following Hd Hu Hne Hp Hm Hcap. unfold mseg, migrate_seg, migrate_expression.
-    rewrite Hne, Hp, Hd, Hu, (mt_no_errs ctxmap raw_dates e t Hm), Hcap. cbn [orb]. destruct (visit_mt ctxmap raw_dates e t Hm) as [Pv [W L]].
-    rewrite Pv. unfold wrap_raw.
+    intros s e t following Hd Hu Hne Hp Hm Hsize Hcap. unfold mseg, migrate_seg, migrate_expression.
+    rewrite Hne, Hsize, Hp, Hd, Hu, (mt_no_errs ctxmap raw_dates e t Hm), Hcap. cbn [orb negb].
+    destruct (visit_mt ctxmap raw_dates e t Hm) as [Pv [W L]].
+    rewrite Pv, (parse3_print3 t W L). unfold wrap_raw.
     destruct (is_valid_identifier (print3 t)).
     - destruct (separate_from_cases (64 :: print3 t) following) as [E|E]; fold sep; rewrite E.
-      + eexists. split; [reflexivity|]. split; [left; reflexivity | apply parse3_print3; assumption].
-      + eexists. split; [reflexivity|]. split; [right; reflexivity | apply parse3_print3; assumption].
+      + eexists. split; [reflexivity|]. split; [left; reflexivity | first [reflexivity | apply parse3_print3; assumption]].
+      + eexists. split; [reflexivity|]. split; [right; reflexivity | first [reflexivity | apply parse3_print3; assumption]].
     - destruct (separate_from_cases (64 :: 40 :: print3 t ++ [41]) following) as [E|E]; fold sep; rewrite E.
-      + eexists. split; [reflexivity|]. split; [right; reflexivity | apply parse3_print3; assumption].
+      + eexists. split; [reflexivity|]. split; [right; reflexivity | first [reflexivity | apply parse3_print3; assumption]].
       + exfalso. revert E. unfold sep, separate_from. destruct (negb separates_identifiers).
         * intros E. apply (f_equal (@length N)) in E. cbn in E. rewrite !app_length in E. cbn in E. lia.
         * cbn [is_prefix]. rewrite !N.eqb_refl. cbn [andb].
@@ -1198,7 +1200,7 @@ Definition hyp_seg (ctx : text -> text) (raw_dates : bool) (s : seg) : bool :=
       if text_eqb t t_empty_literal then true
       else match parse1 t with
            | Some e => match mt ctx raw_dates e with
-                       | Some _ => negb (too_long ctx raw_dates (max_migrated_length t) e)
+                       | Some _ => expression_size_ok t && negb (too_long ctx raw_dates (max_migrated_length t) e)
                        | None => false
                        end
            | None => false
@@ -1230,66 +1232,126 @@ Definition hyp_mismatches (ks : list (lcase * bool)) : list N := hyp_mismatches_
    recorded outputs). *)
 
 Definition legacy_spec : list (String.string * String.string) := [
-  ("ABS(a1)", "abs(a1)"); ("AND(a1, a2)", "and(a1, a2)"); ("AVERAGE(a1, a2)", "mean(a1, a2)");
-  ("CHAR(a1)", "char(a1)"); ("CLEAN(a1)", "clean(a1)"); ("CODE(a1)", "code(a1)");
-  ("CONCATENATE(a1, a2, a3)", "(a1 & a2) & a3"); ("DATE(a1, a2, a3)", "date_from_parts(a1, a2, a3)");
-  ("DATEDIF(a1, a2, a3)", "datetime_diff(a1, a2, a3)"); ("DATEVALUE(a1)", "date(a1)");
-  ("DAY(a1)", "format_date(a1, ""D"")"); ("DAYS(a1, a2)", "datetime_diff(a2, a1, ""D"")");
-  ("EDATE(a1, a2)", "datetime_add(a1, a2, ""M"")"); ("EPOCH(a1)", "epoch(a1)");
-  ("EXP(a1)", "2.718281828459045 ^ a1"); ("FALSE()", "false");
-  ("FIELD(a1, a2, a3)", "field(a1, a2 - 1, a3)"); ("FIELD(a1, 2, a3)", "field(a1, 1, a3)");
-  ("FIRST_WORD(a1)", "word(a1, 0)");
-  ("FIXED(a1)", "format_number(a1, 2)"); ("FIXED(a1, a2)", "format_number(a1, a2)"); ("FIXED(a1, a2, a3)", "format_number(a1, a2, a3)");
-  ("FORMAT_DATE(a1)", "format_datetime(a1)"); ("FORMAT_LOCATION(a1)", "format_location(a1)");
-  ("HOUR(a1)", "format_datetime(a1, ""tt"")"); ("IF(a1, a2, a3)", "if(a1, a2, a3)"); ("INT(a1)", "round_down(a1)");
-  ("LEFT(a1, a2)", "text_slice(a1, 0, a2)"); ("LEN(a1)", "text_length(a1)"); ("LOWER(a1)", "lower(a1)");
-  ("MAX(a1, a2)", "max(a1, a2)"); ("MIN(a1, a2)", "min(a1, a2)"); ("MINUTE(a1)", "format_datetime(a1, ""m"")");
-  ("MOD(a1, a2)", "mod(a1, a2)"); ("MONTH(a1)", "format_date(a1, ""M"")"); ("NOW()", "now()");
-  ("OR(a1, a2)", "or(a1, a2)"); ("PERCENT(a1)", "percent(a1)"); ("POWER(a1, a2)", "a1 ^ a2");
-  ("PROPER(a1)", "title(a1)"); ("RAND()", "rand()"); ("RANDBETWEEN(a1, a2)", "rand_between(a1, a2)");
-  ("READ_DIGITS(a1)", "read_chars(a1)"); ("REGEX_GROUP(a1, a2, a3)", "regex_match(a1, a2, a3)");
-  ("REMOVE_FIRST_WORD(a1)", "remove_first_word(a1)"); ("REPT(a1, a2)", "repeat(a1, a2)");
-  ("RIGHT(a1, a2)", "text_slice(a1, -a2)"); ("ROUND(a1, a2)", "round(a1, a2)");
-  ("ROUNDDOWN(a1, a2)", "round_down(a1, a2)"); ("ROUNDUP(a1, a2)", "round_up(a1, a2)");
-  ("SECOND(a1)", "format_datetime(a1, ""s"")"); ("SUBSTITUTE(a1, a2, a3)", "replace(a1, a2, a3)");
-  ("SUM(a1, a2, a3)", "(a1 + a2) + a3"); ("TIME(a1, a2, a3)", "time_from_parts(a1, a2, a3)");
-  ("TIMEVALUE(a1)", "time(a1)"); ("TODAY()", "today()"); ("TRUE()", "true"); ("TRUNC(a1)", "round_down(a1)");
-  ("UNICHAR(a1)", "char(a1)"); ("UNICODE(a1)", "code(a1)"); ("UPPER(a1)", "upper(a1)");
+  ("ABS(a1)", "abs(a1)");
+  ("AND(a1, a2)", "and(a1, a2)");
+  ("AVERAGE(a1, a2)", "mean(a1, a2)");
+  ("CHAR(a1)", "char(a1)");
+  ("CLEAN(a1)", "clean(a1)");
+  ("CODE(a1)", "code(a1)");
+  ("CONCATENATE(a1, a2, a3)", "(a1 & a2) & a3");
+  ("DATE(a1, a2, a3)", "date_from_parts(a1, a2, a3)");
+  ("DATEDIF(a1, a2, a3)", "datetime_diff(a1, a2, a3)");
+  ("DAY(a1)", "format_date(a1, ""D"")");
+  ("DAYS(a1, a2)", "datetime_diff(a2, a1, ""D"")");
+  ("EPOCH(a1)", "epoch(a1)");
+  ("EXP(a1)", "2.718281828459045 ^ a1");
+  ("FALSE()", "false");
+  ("FIELD(a1, a2, a3)", "field(a1, a2 - 1, a3)");
+  ("FIELD(a1, 2, a3)", "field(a1, 1, a3)");
+  ("FIXED(a1)", "format_number(a1, 2)");
+  ("FIXED(a1, a2)", "format_number(a1, a2)");
+  ("FORMAT_DATE(a1)", "format_datetime(a1)");
+  ("FORMAT_LOCATION(a1)", "format_location(a1)");
+  ("IF(a1, a2, a3)", "if(a1, a2, a3)");
+  ("INT(a1)", "round_down(a1)");
+  ("LEFT(a1, a2)", "text_slice(a1, 0, a2)");
+  ("LEN(a1)", "text_length(a1)");
+  ("LOWER(a1)", "lower(a1)");
+  ("MAX(a1, a2)", "max(a1, a2)");
+  ("MIN(a1, a2)", "min(a1, a2)");
+  ("MINUTE(a1)", "format_datetime(a1, ""m"")");
+  ("MONTH(a1)", "format_date(a1, ""M"")");
+  ("NOW()", "now()");
+  ("OR(a1, a2)", "or(a1, a2)");
+  ("PERCENT(a1)", "percent(a1)");
+  ("POWER(a1, a2)", "a1 ^ a2");
+  ("RAND()", "rand()");
+  ("RANDBETWEEN(a1, a2)", "rand_between(a1, a2)");
+  ("REGEX_GROUP(a1, a2, a3)", "regex_match(a1, a2, a3)");
+  ("REMOVE_FIRST_WORD(a1)", "remove_first_word(a1)");
+  ("REPT(a1, a2)", "repeat(a1, a2)");
+  ("ROUND(a1, a2)", "round(a1, a2)");
+  ("SECOND(a1)", "format_datetime(a1, ""s"")");
+  ("SUM(a1, a2, a3)", "(a1 + a2) + a3");
+  ("TIME(a1, a2, a3)", "time_from_parts(a1, a2, a3)");
+  ("TIMEVALUE(a1)", "time(a1)");
+  ("TODAY()", "today()");
+  ("TRUE()", "true");
+  ("UNICHAR(a1)", "char(a1)");
+  ("UNICODE(a1)", "code(a1)");
+  ("UPPER(a1)", "upper(a1)");
   ("WEEKDAY(a1)", "weekday(a1) + 1");
-  ("WORD(a1, a2)", "word(a1, a2 - 1)"); ("WORD(a1, 3)", "word(a1, 2)");
-  ("WORD(a1, a2, TRUE)", "word(a1, a2 - 1, "" \t"")"); ("WORD(a1, a2, FALSE)", "word(a1, a2 - 1, NULL)");
-  ("WORD_COUNT(a1)", "word_count(a1)"); ("WORD_COUNT(a1, TRUE)", "word_count(a1, "" \t"")");
-  ("WORD_SLICE(a1, a2)", "word_slice(a1, a2 - 1)"); ("WORD_SLICE(a1, a2, a3)", "word_slice(a1, a2 - 1, a3 - 1)");
+  ("WORD(a1, 3)", "word(a1, 2)");
+  ("WORD_COUNT(a1)", "word_count(a1)");
+  ("WORD_COUNT(a1, TRUE)", "word_count(a1, "" \t"")");
   ("WORD_SLICE(a1, 2, 4, TRUE)", "word_slice(a1, 1, 3, "" \t"")");
   ("YEAR(a1)", "format_date(a1, ""YYYY"")");
-  (* every admitted number of arguments of the per-parameter migrators and joins *)
-  ("FIELD(a1)", "field(a1)"); ("FIELD(a1, a2)", "field(a1, a2 - 1, "" "")"); ("WORD(a1)", "word(a1)");
-  ("WORD_SLICE(a1)", "word_slice(a1)"); ("WORD_SLICE(a1, a2, a3, FALSE)", "word_slice(a1, a2 - 1, a3 - 1, NULL)");
+  ("FIELD(a1)", "field(a1)");
+  ("FIELD(a1, a2)", "field(a1, a2 - 1, "" "")");
+  ("WORD(a1)", "word(a1)");
+  ("WORD_SLICE(a1)", "word_slice(a1)");
   ("WORD_COUNT(a1, FALSE)", "word_count(a1, NULL)");
-  ("SUM(a1)", "a1"); ("SUM(a1, a2)", "a1 + a2"); ("CONCATENATE(a1)", "a1"); ("CONCATENATE(a1, a2)", "a1 & a2");
+  ("SUM(a1)", "a1");
+  ("SUM(a1, a2)", "a1 + a2");
+  ("CONCATENATE(a1)", "a1");
+  ("CONCATENATE(a1, a2)", "a1 & a2");
   ("WORD(a1, -1)", "word(a1, -1)");
-  (* addition and subtraction of dates and times (the operand types are those inferType derives from the migrated
-     operand text: integer literal / known function name); legacy: date + n days, datetime + time of day *)
-  ("NOW() + 1", "datetime_add(now(), 1, ""D"")"); ("NOW() - 1", "datetime_add(now(), -1, ""D"")");
-  ("TODAY() + 1", "format_date(datetime_add(today(), 1, ""D""))"); ("TODAY() - 7", "format_date(datetime_add(today(), -7, ""D""))");
-  ("NOW() + TIME(1, 2, 3)", "datetime_add(now(), format_time(time_from_parts(1, 2, 3), ""tt"") * 60 + format_time(time_from_parts(1, 2, 3), ""m""), ""m"")");
-  ("NOW() - TIME(1, 2, 3)", "datetime_add(now(), -(format_time(time_from_parts(1, 2, 3), ""tt"") * 60 + format_time(time_from_parts(1, 2, 3), ""m"")), ""m"")");
+  ("NOW() + 1", "datetime_add(now(), 1, ""D"")");
+  ("NOW() - 1", "datetime_add(now(), -1, ""D"")");
+  ("TODAY() + 1", "format_date(datetime_add(today(), 1, ""D""))");
+  ("TODAY() - 7", "format_date(datetime_add(today(), -7, ""D""))");
   ("TODAY() + TIME(1, 2, 3)", "replace_time(today(), time_from_parts(1, 2, 3))");
-  ("a1 + TIMEVALUE(a2)", "replace_time(a1, time(a2))");
   ("NOW() - (a1 + 1)", "legacy_add(now(), -(legacy_add(a1, 1)))");
-  ("1.5 + 2", "legacy_add(1.5, 2)"); ("ABS(a1) + 2", "abs(a1) + 2"); ("2 - ABS(a1) * 3", "2 - abs(a1) * 3"); ("a1 - ABS(a2) * 3", "legacy_add(a1, -(abs(a2) * 3))");
-  (* optional arguments: IF(test, value_if_true = 0, value_if_false = FALSE) *)
-  ("IF(a1)", "if(a1, 0, false)"); ("IF(a1, a2)", "if(a1, a2, false)");
-  (* DATEDIF units y, m, d are case-insensitive in legacy; M is months, m minutes in datetime_diff *)
-  ("DATEDIF(a1, a2, ""m"")", "datetime_diff(a1, a2, ""M"")"); ("DATEDIF(a1, a2, ""Y"")", "datetime_diff(a1, a2, ""Y"")");
+  ("1.5 + 2", "legacy_add(1.5, 2)");
+  ("ABS(a1) + 2", "abs(a1) + 2");
+  ("2 - ABS(a1) * 3", "2 - abs(a1) * 3");
+  ("a1 - ABS(a2) * 3", "legacy_add(a1, -(abs(a2) * 3))");
+  ("IF(a1)", "if(a1, 0, false)");
+  ("IF(a1, a2)", "if(a1, a2, false)");
+  ("DATEDIF(a1, a2, ""m"")", "datetime_diff(a1, a2, ""M"")");
+  ("DATEDIF(a1, a2, ""Y"")", "datetime_diff(a1, a2, ""Y"")");
   ("DATEDIF(a1, a2, ""d"")", "datetime_diff(a1, a2, ""D"")");
-  (* by_spaces given as an expression is decided when the expression is evaluated *)
-  ("WORD(a1, a2, a3)", "word(a1, a2 - 1, if(a3, "" \t"", NULL))"); ("WORD_COUNT(a1, a2 = 1)", "word_count(a1, if(a2 = 1, "" \t"", NULL))");
+  ("WORD_COUNT(a1, a2 = 1)", "word_count(a1, if(a2 = 1, "" \t"", NULL))");
   ("DATE(a1, a2, a3) + 1", "format_date(datetime_add(date_from_parts(a1, a2, a3), 1, ""D""))");
-  (* operators *)
-  ("a1 <> a2", "a1 != a2"); ("a1 & a2 & a3", "(a1 & a2) & a3"); ("a1 * a2 / a3", "(a1 * a2) / a3");
-  ("a1 ^ a2 ^ a3", "(a1 ^ a2) ^ a3"); ("-a1 ^ a2", "(-a1) ^ a2"); ("a1 + a2", "legacy_add(a1, a2)");
-  ("a1 - a2", "legacy_add(a1, -a2)"); ("1 - 2", "1 - 2"); ("a1 <= a2 = a3", "(a1 <= a2) = a3")
+  ("a1 & a2 & a3", "(a1 & a2) & a3");
+  ("a1 * a2 / a3", "(a1 * a2) / a3");
+  ("a1 ^ a2 ^ a3", "(a1 ^ a2) ^ a3");
+  ("-a1 ^ a2", "(-a1) ^ a2");
+  ("a1 + a2", "legacy_add(a1, a2)");
+  ("a1 - a2", "legacy_add(a1, -a2)");
+  ("1 - 2", "1 - 2")
+]%string.
+
+(* Lines that codify a KNOWN value difference: the target below is what the migrator emits and what goflow's
+   functions_test.go / migrate_test.go pin, but it does NOT compute the legacy value (third component: the class of the
+   known: line of KNOWN_FINDINGS.txt that demonstrates it on every run).  They are checked like the others, so that a
+   repair of one of these findings has to touch a visibly marked line. *)
+Definition legacy_spec_pinned : list (String.string * String.string * String.string) := [
+  ("DATEVALUE(a1)", "date(a1)", "legacy-value:date-text:two-digit-year");
+  ("EDATE(a1, a2)", "datetime_add(a1, a2, ""M"")", "legacy-value:call:edate/2");
+  ("FIRST_WORD(a1)", "word(a1, 0)", "legacy-value:op:&:call:first_word,text");
+  ("FIXED(a1, a2, a3)", "format_number(a1, a2, a3)", "legacy-value:call:fixed/3");
+  ("HOUR(a1)", "format_datetime(a1, ""tt"")", "legacy-value:call:hour/1");
+  ("MOD(a1, a2)", "mod(a1, a2)", "legacy-value:call:mod/2");
+  ("PROPER(a1)", "title(a1)", "legacy-value:call:proper/1");
+  ("READ_DIGITS(a1)", "read_chars(a1)", "legacy-value:call:read_digits/1");
+  ("RIGHT(a1, a2)", "text_slice(a1, -a2)", "legacy-value:call:right/2");
+  ("ROUNDDOWN(a1, a2)", "round_down(a1, a2)", "legacy-value:call:rounddown/2");
+  ("ROUNDUP(a1, a2)", "round_up(a1, a2)", "legacy-value:call:roundup/2");
+  ("SUBSTITUTE(a1, a2, a3)", "replace(a1, a2, a3)", "legacy-value:call:substitute/4");
+  ("TRUNC(a1)", "round_down(a1)", "legacy-value:call:trunc/1");
+  ("WORD(a1, a2)", "word(a1, a2 - 1)", "legacy-value:call:word/2:computed-negative-position");
+  ("WORD(a1, a2, TRUE)", "word(a1, a2 - 1, "" \t"")", "legacy-value:call:word/2:computed-negative-position");
+  ("WORD(a1, a2, FALSE)", "word(a1, a2 - 1, NULL)", "legacy-value:call:word/2:computed-negative-position");
+  ("WORD_SLICE(a1, a2)", "word_slice(a1, a2 - 1)", "legacy-value:call:word_slice/3:negative-literal-position");
+  ("WORD_SLICE(a1, a2, a3)", "word_slice(a1, a2 - 1, a3 - 1)", "legacy-value:call:word_slice/3:negative-literal-position");
+  ("WORD_SLICE(a1, a2, a3, FALSE)", "word_slice(a1, a2 - 1, a3 - 1, NULL)", "legacy-value:call:word_slice/3:negative-literal-position");
+  ("NOW() + TIME(1, 2, 3)", "datetime_add(now(), format_time(time_from_parts(1, 2, 3), ""tt"") * 60 + format_time(time_from_parts(1, 2, 3), ""m""), ""m"")", "legacy-value:op:+:call:now,call:time");
+  ("NOW() - TIME(1, 2, 3)", "datetime_add(now(), -(format_time(time_from_parts(1, 2, 3), ""tt"") * 60 + format_time(time_from_parts(1, 2, 3), ""m"")), ""m"")", "legacy-value:op:+:call:now,call:time");
+  ("a1 + TIMEVALUE(a2)", "replace_time(a1, time(a2))", "legacy-value:op:+:reference,call:time");
+  ("WORD(a1, a2, a3)", "word(a1, a2 - 1, if(a3, "" \t"", NULL))", "legacy-value:call:word/2:computed-negative-position");
+  ("a1 <> a2", "a1 != a2", "legacy-value:equality:text,text");
+  ("a1 <= a2 = a3", "(a1 <= a2) = a3", "legacy-value:ordering:text,text")
 ]%string.
 
 Definition spec_ok (p : String.string * String.string) : bool :=
@@ -1302,7 +1364,9 @@ Definition spec_ok (p : String.string * String.string) : bool :=
   | _, _ => false
   end.
 
-Lemma table_meets_spec : forallb spec_ok legacy_spec = true.
+Definition all_spec : list (String.string * String.string) := legacy_spec ++ map fst legacy_spec_pinned.
+
+Lemma table_meets_spec : forallb spec_ok all_spec = true.
 Proof. vm_compute. reflexivity. Qed.
 
 (* coverage of the specification: every key of the regenerated table has a sample call for every number of
@@ -1312,7 +1376,7 @@ Definition spec_calls : list (text * nat) :=
   flat_map (fun p => match parse1 (s2t (fst p)) with
                      | Some (E1Call f args) => [(lower f, length args)]
                      | _ => []
-                     end) legacy_spec.
+                     end) all_spec.
 
 Definition has_call (k : text) (n : nat) : bool :=
   existsb (fun c => text_eqb (fst c) k && Nat.eqb (snd c) n) spec_calls.
